@@ -20,7 +20,7 @@ MANIFEST = {
     'technique': 'solver-driven bounded exploration of the real Python code (z3 decides every configuration choice; coverage certificate), specification oracle',
 }
 
-BOUNDS = {'quick': [1, 2, 3, 4], 'thorough': [1, 2, 3, 4, 5, 6]}
+BOUNDS = {'quick': [1, 2, 3, 4], 'thorough': [1, 2, 3, 4, 5]}
 HEUR = ['MI-numba-randomized', 'MI-numba-3mr', 'Constant']
 INFO = {
     'engine': 'symx + z3 (inputs concretised by decisions) + real pandas',
@@ -51,7 +51,7 @@ def spec(cols, label, heur, target_only):
     return req, allowed
 
 
-def drive(cr, cols, label, heur, target_only, cap, fresh=True):
+def drive(cr, cols, label, heur, target_only, cap, fresh=True, ncpus=1):
     import pandas as pd
     if fresh:
         PL.fresh_state()
@@ -62,7 +62,7 @@ def drive(cr, cols, label, heur, target_only, cap, fresh=True):
     saved = cr.get_importances_estimate_pairwise
     cr.get_importances_estimate_pairwise = lambda comb, ref, a, tmp_df: (comb[0], comb[1], token(comb[0], comb[1]))
     try:
-        res = cr.mixed_rank_graph(df, args, PL.SerialPool(), PL.PB())
+        res = cr.mixed_rank_graph(df, args, PL.SerialPool(ncpus=ncpus), PL.PB())
     finally:
         cr.get_importances_estimate_pairwise = saved
     return [tuple(t) for t in res.triplet_scores]
@@ -111,7 +111,7 @@ def colnames(m, lpos, relflags):
         if i == lpos:
             cols.append('label')
         else:
-            cols.append(f'f{i} AND_REL g{i}' if relflags[k] else f'f{i}')
+            cols.append({0: f'f{i}', 1: f'f{i} AND_REL g{i}', 2: f'BRAND_RELEVANCE{i}'}[int(relflags[k])])     # 2: an ordinary column whose name merely contains the letters AND_REL
             k += 1
     return cols
 
@@ -139,7 +139,11 @@ def run_job(job):
         st['heur'] = z3.Int('heur')
         st['to'] = z3.Bool('target_only')
         st['cap'] = z3.Int('cap')
-        st['rel'] = [z3.Bool(f'rel{i}') for i in range(m - 1)]
+        st['rel'] = [z3.Int(f'rel{i}') for i in range(m - 1)]
+        for v in st['rel']:
+            ctx.assume(v >= 0, v <= 2)
+        st['ncpus'] = z3.Int('ncpus')
+        ctx.assume(st['ncpus'] >= 1, st['ncpus'] <= 3)
         ctx.assume(st['lpos'] >= 0, st['lpos'] < m, st['heur'] >= 0, st['heur'] < len(HEUR), st['cap'] >= 0, st['cap'] <= maxcap)
         for k, v in job['pins'].items():
             ctx.assume(z3.Int(k) == v)
@@ -148,16 +152,17 @@ def run_job(job):
         lpos = int(SInt(st['lpos'], 0, m - 1))
         heur = HEUR[int(SInt(st['heur'], 0, len(HEUR) - 1))]
         to = bool(symx.SBool(st['to']))
-        rel = [bool(symx.SBool(r)) for r in st['rel']]
+        rel = [int(SInt(r, 0, 2)) for r in st['rel']]
+        ncpus = int(SInt(st['ncpus'], 1, 3))
         cap = int(SInt(st['cap'], 0, maxcap))
         cols = colnames(m, lpos, rel)
-        w = {'cond': 'pairs', 'cols': cols, 'heur': heur, 'target_only': to, 'cap': cap}
+        w = {'cond': 'pairs', 'cols': cols, 'heur': heur, 'target_only': to, 'cap': cap, 'ncpus': ncpus}
         try:
-            probs = check(drive(cr, cols, 'label', heur, to, cap), cols, 'label', heur, to, cap)
+            probs = check(drive(cr, cols, 'label', heur, to, cap, ncpus=ncpus), cols, 'label', heur, to, cap)
             if not probs and cap >= maxcap - 1:
                 # a history of mini-batches in one process: every later batch covers the requested pairs as well
                 for k in (2, 3, 4):
-                    probs = check(drive(cr, cols, 'label', heur, to, cap, fresh=False), cols, 'label', heur, to, cap)
+                    probs = check(drive(cr, cols, 'label', heur, to, cap, fresh=False, ncpus=ncpus), cols, 'label', heur, to, cap)
                     if probs:
                         probs = [f'mini-batch {k} of a history in one process: ' + probs[0]]
                         w['batches'] = k
@@ -175,12 +180,12 @@ def run_job(job):
 def replay(w):
     cr, cu, tr, ie = PL.real_modules()
     try:
-        trip = drive(cr, w['cols'], 'label', w['heur'], w['target_only'], w['cap'])
+        trip = drive(cr, w['cols'], 'label', w['heur'], w['target_only'], w['cap'], ncpus=w.get('ncpus', 1))
         for k in range(2, w.get('batches', 1) + 1):
-            trip = drive(cr, w['cols'], 'label', w['heur'], w['target_only'], w['cap'], fresh=False)
+            trip = drive(cr, w['cols'], 'label', w['heur'], w['target_only'], w['cap'], fresh=False, ncpus=w.get('ncpus', 1))
     except Exception as e:
         return {'reproduced': True, 'signature': f'C06:exception:{type(e).__name__}', 'what': f'columns {w["cols"]}, {w["heur"]}, target_only={w["target_only"]}, cap {w["cap"]}: {type(e).__name__}: {e}'}
     probs = check(trip, w['cols'], 'label', w['heur'], w['target_only'], w['cap'])
     if probs:
-        return {'reproduced': True, 'signature': 'C06:' + probs[0].split()[0] + (':later-batch' if w.get('batches') else ''), 'what': (f'mini-batch {w["batches"]} of a history: ' if w.get('batches') else '') + f'columns {w["cols"]}, {w["heur"]}, target_only={w["target_only"]}, cap {w["cap"]}: ' + '; '.join(probs)[:500]}
+        return {'reproduced': True, 'signature': 'C06:' + probs[0].split()[0] + (':later-batch' if w.get('batches') else ''), 'what': (f'mini-batch {w["batches"]} of a history: ' if w.get('batches') else '') + f'pool of {w.get("ncpus", 1)} workers, columns {w["cols"]}, {w["heur"]}, target_only={w["target_only"]}, cap {w["cap"]}: ' + '; '.join(probs)[:500]}
     return {'reproduced': False, 'what': 'triplets match the specification'}
